@@ -6,7 +6,7 @@ desc = json.load(open(os.path.join(ROOT, "tools", "seeds_desc.json")))
 for key, (what, needs, how) in sorted(desc.items()):
     prop, x = key.split("-")
     ev = os.path.join(ROOT, "work", "muteval", key + ".json")
-    src = {"A": "/tmp/mut-%s/_out/A", "B": "/tmp/mut-%s/_out/B", "C": "/tmp/m3-%s/_out/A", "D": "/tmp/m3-%s/_out/B", "E": "/tmp/m4-%s/_out/A", "F": "/tmp/m4-%s/_out/B", "G": "/tmp/m5-%s/_out/A", "H": "/tmp/m5-%s/_out/B", "I": "/tmp/m6-%s/_out/A", "J": "/tmp/m6-%s/_out/B"}[x] % prop.lower()
+    src = {"A": "/tmp/mut-%s/_out/A", "B": "/tmp/mut-%s/_out/B", "C": "/tmp/m3-%s/_out/A", "D": "/tmp/m3-%s/_out/B", "E": "/tmp/m4-%s/_out/A", "F": "/tmp/m4-%s/_out/B", "G": "/tmp/m5-%s/_out/A", "H": "/tmp/m5-%s/_out/B", "I": "/tmp/m6-%s/_out/A", "J": "/tmp/m6-%s/_out/B", "K": "/tmp/m7-%s/_out/A", "L": "/tmp/m7-%s/_out/B"}[x] % prop.lower()
     if not os.path.exists(ev) or not (os.path.isdir(src) or os.path.isdir(os.path.join(ROOT, 'seeded', key))) or not what:
         continue
     try:
